@@ -420,7 +420,7 @@ def rule_pvguard(fx, rep, neg):
     if not found_flag:
         ok = False
         rep.violation("C08-PVGUARD", "C08-PVGUARD/flag", "negamax has no PV-node flag of the form `alpha != beta - Eval(1)`", {"fn": neg.name, "file": neg.file, "line": neg.line})
-    rep.rule("C08-PVGUARD", n, 4, ok, "branches on static eval / hash-entry contents under !is_pv")
+    rep.rule("C08-PVGUARD", n, 3, ok, "branches on static eval / hash-entry contents under !is_pv")
 
 
 def ordinal(neg, bb, why):
@@ -558,6 +558,7 @@ def rule_matedist(fx, rep, neg):
             if not good:
                 bad("store", f"negamax line {s.get('line')}: the score stored in the hash table is `{show(e)[:80]}`, not best_eval.with_mate_distance_from_position(plies): mate distances are then wrong when the entry is reused at another ply", s.get("line"))
     # hash-hit returns
+    n_hits = 0
     for bb, j, s in neg.stmts():
         rv = s.get("rv")
         if s["k"] == "assign" and s["lhs"]["l"] == 0 and rv and rv["k"] == "agg" and rv.get("variant") == "Ok":
@@ -566,6 +567,7 @@ def rule_matedist(fx, rep, neg):
             if not any(prune_relevant(e) and prune_relevant(e).startswith("hash entry") for (e, pol, w) in conds) or tablebase_guarded(neg, bb):
                 continue
             n += 1
+            n_hits += 1
             e = strip_refs(neg.expr(rv["ops"][0], expand_named=True, at=bb))
             good = isinstance(e, tuple) and e[0] == "call" and e[1].endswith("Eval::with_mate_distance_from_root") and deep_strip(e[2][1]) == plies and \
                 any(isinstance(x, tuple) and len(x) == 3 and x[0] == "field" and x[2] == "eval" for x in walk(e[2][0]))
@@ -580,11 +582,16 @@ def rule_matedist(fx, rep, neg):
     good = len(p) == len(r) == 2 and all(a[0] == b[0] and a[1] == b[1] and len(a[2]) == 1 and len(b[2]) == 1 and flip.get(a[2][0]) == b[2][0] for a, b in zip(p, r))
     # and the positive branch of from_position adds (further from mate when stored relative to the node)
     good = good and any(a[0] == "Gt" and a[2] == ("Add",) for a in p) and any(a[0] == "Lt" and a[2] == ("Sub",) for a in p)
+    if not p or not r:
+        rep.notes.append("C08-MATEDIST: the two mate-distance conversions are not `if value > / < threshold { value +- plies }` on the score itself (the tests may sit in predicate helpers); the mirror clause is not decided")
+        good = True
     rep.obligation(good)
     rep.sample({"rule": "C08-MATEDIST", "from_position": [str(x) for x in p], "from_root": [str(x) for x in r]})
     if not good:
         bad("mirror", f"with_mate_distance_from_position {p} and with_mate_distance_from_root {r} are not mirror images (same thresholds, opposite adjustments)")
-    rep.rule("C08-MATEDIST", n, 3, ok, "mate-distance conversion on store / hit, mirrored conversions")
+    if n_hits == 0:
+        rep.notes.append("C08-MATEDIST: no return of negamax is visibly controlled by the hash entry's contents (the cut-off may sit in a helper or closure); the hit conversion is not decided")
+    rep.rule("C08-MATEDIST", n, 2, ok, "mate-distance conversion on store / hit, mirrored conversions")
 
 
 def rule_depth(fx, rep):
